@@ -14,6 +14,7 @@ search     : direct oracles on the implementation: (1) a formula-based reference
 """
 from __future__ import annotations
 
+import collections
 import glob
 import json
 import os
@@ -757,6 +758,83 @@ def ragged_rows_oracle(ck, tmp):
     return n
 
 
+ROWS_HEADER = """From Coq Require Import List String ZArith Bool.
+From SV Require Import Model.RunSpace Model.Rows Gen.RowsGen.
+Import ListNotations. Open Scope string_scope.
+Definition I_ := VInt. Definition S_ := VStr.
+Definition cs : list rcase := [
+%s
+].
+Eval vm_compute in rbad RowsGen.rows_checked cs 0.
+"""
+
+
+def rows_correspondence(ck, rng, tmp, n):
+    """Model/Rows.v against _load_source_file on rows-as-runs files (json / yaml list of mappings, ndjson): rectangular rows, columns
+    that end early, keys that come back after a gap, random key subsets; the model answers with the columns or a rejection, the
+    implementation with the columns or the configuration error.  The last case is a canary that must mismatch."""
+    from pathlib import Path
+    import yaml
+    from semantiva.execution.run_space import _load_source_file
+    d = os.path.join(tmp, "rowscorr")
+    os.makedirs(d, exist_ok=True)
+
+    def val():
+        return rng.randint(-5, 99) if rng.random() < 0.7 else rng.choice(["x", "lo", "v_1", "yy"])
+
+    def lit(v):
+        return "I_ (%d)%%Z" % v if isinstance(v, int) else "S_ %s" % cq_str(v)
+    lits, kept = [], []
+    shapes = collections.Counter()
+    for t in range(n):
+        keys = rng.sample(["a", "b", "c", "k1", "Z"], rng.randint(1, 3))
+        nrows = rng.choice([0, 1, 2, 3, 3, 4, 5])
+        shape = rng.choice(["rect", "rect", "tail", "gap", "subset"])
+        rows = []
+        stop = {k: (rng.randint(1, nrows) if shape == "tail" and rng.random() < 0.6 and nrows else nrows) for k in keys}
+        for i in range(nrows):
+            if shape == "subset":
+                ks = [k for k in keys if rng.random() < 0.75]
+            elif shape == "gap":
+                ks = [k for k in keys if not (k == keys[-1] and i == nrows // 2)]
+            else:
+                ks = [k for k in keys if i < stop[k]]
+            if rng.random() < 0.3:
+                ks = ks[::-1]
+            rows.append({k: val() for k in ks})
+        fmt = rng.choice(["json", "ndjson", "yaml"])
+        text = json.dumps(rows) if fmt == "json" else "".join(json.dumps(r) + "\n" for r in rows) if fmt == "ndjson" else yaml.safe_dump(rows, sort_keys=False)
+        path = os.path.join(d, "r%d.%s" % (t, fmt))
+        with open(path, "w") as f:
+            f.write(text)
+        try:
+            cols = _load_source_file(Path(path), fmt)
+            got = "Some [%s]" % "; ".join("(%s, [%s])" % (cq_str(k), "; ".join(lit(v) for v in vs)) for k, vs in cols.items())
+        except Exception as ex:  # noqa
+            if type(ex).__name__ not in ("PipelineConfigurationError", "ConfigurationError"):
+                ck.fail_input("C08:source-loading:rows:raw-error:" + fmt, "rows %s as a %s source: %s: %s" % (rows, fmt, type(ex).__name__, str(ex)[:120]),
+                              {"kind": "rows", "format": fmt, "rows": rows})
+                continue
+            got = "None"
+        shapes[shape + ("/rejected" if got == "None" else "")] += 1
+        lits.append("([%s], %s)" % ("; ".join("[%s]" % "; ".join("(%s, %s)" % (cq_str(k), lit(v)) for k, v in r.items()) for r in rows), got))
+        kept.append((rows, fmt, got))
+    lits.append('([[("a", I_ 1%Z)]], Some [("a", [I_ 2%Z])])')      # canary
+    per, errs = core.mismatches("C08_rows", [ROWS_HEADER % ";\n".join(lits)], timeout=300)
+    for k, rc, out in errs:
+        ck.corr_problem("rows correspondence did not evaluate (rc=%s)" % rc, out)
+    if per and per[0] is not None:
+        bad = per[0][0]
+        if len(kept) not in bad:
+            ck.corr_problem("canary case of the rows correspondence was not reported as a mismatch (comparison is not live)", "")
+        real_bad = [b for b in bad if b != len(kept)]
+        for b in real_bad[:4]:
+            rows, fmt, got = kept[b]
+            ck.corr_problem("Model/Rows.v and _load_source_file disagree on the columns of a rows-as-runs source",
+                            "rows %s (%s): implementation gives %s" % (rows, fmt, got), case={"rows": rows, "format": fmt})
+        ck.notes["rows_correspondence"] = {"cases": len(kept), "disagreements": len(real_bad), "shapes": dict(shapes)}
+
+
 LOADER_HEADER = """From Coq Require Import List String ZArith Bool.
 From SV Require Import Model.RunSpace Model.Loader Gen.LoaderGen.
 Import ListNotations. Open Scope string_scope.
@@ -863,8 +941,8 @@ def run(ck):
     from harness.translate import run_all
     rng = random.Random(ck.seed * 104729 + 8)
     thorough = ck.tier == "thorough"
-    gen = run_all(["run_space", "loader"])
-    ck.build_models(["Model/RunSpace.v", "Gen/RunSpaceGen.v", "Model/Loader.v", "Gen/LoaderGen.v"])
+    gen = run_all(["run_space", "loader", "rows"])
+    ck.build_models(["Model/RunSpace.v", "Gen/RunSpaceGen.v", "Model/Loader.v", "Gen/LoaderGen.v", "Model/Rows.v", "Gen/RowsGen.v"])
     proved = ck.prove(gen_results=gen)
     if thorough and proved:
         ck.coqchk()
@@ -1037,6 +1115,7 @@ def _run(ck, rng, thorough, facts, tmp):
     #            accented letters, the Unicode line / paragraph separators and NEL (legal raw inside JSON strings), a tab
     n_uni = unicode_source_oracle(ck, tmp)
     ck.notes["ragged_rows_runs"] = ragged_rows_oracle(ck, tmp)
+    rows_correspondence(ck, rng, tmp, 900 if thorough else 300)
     ck.cov["evaluations"] += n_uni
 
     # ---------- (7) the loader model against the loader
